@@ -16,7 +16,7 @@
      outside the model: such a node is returned unchanged when all its children are unchanged (assumption:
      re-creating a canonical node is the identity) and is [EXN_UNMODELLED] otherwise.  FunctionSymbol::create
      performs no evaluation and is modelled.
-   - fuel = call depth of apply (bounded by the nesting depth of the argument). *)
+   - fuel = call depth of apply, bounded by the measure [wsize] of the argument. *)
 From SE Require Export ExpSubs.Common.
 From Coq Require Import QArith.
 Local Open Scope Z_scope.
@@ -52,8 +52,12 @@ Definition is_set_node (e : expr) : bool :=
   | _ => false
   end.
 
+(* the factor of a Mul as bvisit(Mul) hands it to apply: the key itself, or a new Pow node *)
+Definition mul_factor_old (p : expr * expr) : expr :=
+  if expr_eqb (snd p) e_one then fst p else EPow (fst p) (snd p).
+
 Section Visit.
-  Variable kind : skind.
+  Variable sp : bool.   (* SubsVisitor::bvisit(const Pow &) in force? = subs_pow kind *)
   Variable sd : mdict.                                   (* subs_dict_ *)
   Variable ap : mdict -> expr -> res (expr * mdict).     (* apply, with the state `visited` *)
 
@@ -82,6 +86,29 @@ Section Visit.
     | _ => do et <- as_base_exp factor; a_datn st (fst et) (snd et)
     end.
 
+  (* the tail of XReplaceVisitor::bvisit(Pow) / SubsVisitor::bvisit(Pow): x = Pow(b, e), b' e' the
+     results of apply on b and e *)
+  Definition pow_result (x b e b' e' : expr) : res expr :=
+    let generic (_ : unit) : res expr :=
+      if expr_eqb b' b && expr_eqb e' e then Ok x else a_pow b' e' in
+    if sp then
+      match sd with
+      | [(EPow kb ke, kv)] =>
+          match ke with
+          | EAdd _ _ => generic tt
+          | _ =>
+              if expr_eqb kb b' then
+                do newexpo <- a_div e' ke;
+                match newexpo with
+                | ENum _ | EConst _ => a_pow kv newexpo
+                | _ => generic tt
+                end
+              else generic tt
+          end
+      | _ => generic tt
+      end
+    else generic tt.
+
   Definition bvisit (vis : mdict) (x : expr) : res (expr * mdict) :=
     match x with
     | EAdd c d =>
@@ -108,7 +135,7 @@ Section Visit.
     | EMul c d =>
         do '(st, vis1) <- fold_res (fun (acc : (number * mdict) * mdict) p =>
             let '(s, vs) := acc in
-            let factor_old := if expr_eqb (snd p) e_one then fst p else EPow (fst p) (snd p) in
+            let factor_old := mul_factor_old p in
             do '(factor, vs') <- ap vs factor_old;
             do s' <- (if expr_eqb factor factor_old then a_datn s (snd p) (fst p) else mul_factor s factor);
             Ok (s', vs')) d ((NInt 1, []), vis);
@@ -118,26 +145,7 @@ Section Visit.
     | EPow b e =>
         do '(b', vis1) <- ap vis b;
         do '(e', vis2) <- ap vis1 e;
-        let generic (_ : unit) : res (expr * mdict) :=
-          if expr_eqb b' b && expr_eqb e' e then Ok (x, vis2)
-          else do r <- a_pow b' e'; Ok (r, vis2) in
-        if subs_pow kind then
-          match sd with
-          | [(EPow kb ke, kv)] =>
-              match ke with
-              | EAdd _ _ => generic tt
-              | _ =>
-                  if expr_eqb kb b' then
-                    do newexpo <- a_div e' ke;
-                    match newexpo with
-                    | ENum _ | EConst _ => do r <- a_pow kv newexpo; Ok (r, vis2)
-                    | _ => generic tt
-                    end
-                  else generic tt
-              end
-          | _ => generic tt
-          end
-        else generic tt
+        do r <- pow_result x b e b' e'; Ok (r, vis2)
     | ENum n =>
         match complex_parts n with
         | Some (re, im) =>
@@ -170,7 +178,7 @@ Section Visit.
     end.
 End Visit.
 
-Fixpoint apply (fuel : nat) (kind : skind) (cache : bool) (sd : mdict) (vis : mdict) (x : expr)
+Fixpoint apply (fuel : nat) (sp : bool) (cache : bool) (sd : mdict) (vis : mdict) (x : expr)
   : res (expr * mdict) :=
   match fuel with
   | O => ErrFuel
@@ -179,22 +187,53 @@ Fixpoint apply (fuel : nat) (kind : skind) (cache : bool) (sd : mdict) (vis : md
         match mlookup x vis with
         | Some (_, v) => Ok (v, vis)
         | None =>
-            do '(r, vis') <- bvisit kind sd (apply f kind cache sd) vis x;
+            do '(r, vis') <- bvisit sp sd (apply f sp cache sd) vis x;
             Ok (r, minsert x r vis')
         end
       else
         match mlookup x sd with
         | Some (_, v) => Ok (v, vis)
-        | None => bvisit kind sd (apply f kind cache sd) vis x
+        | None => bvisit sp sd (apply f sp cache sd) vis x
         end
   end.
 
-Definition subs_fuel (x : expr) : nat := (2 * size x + 10)%nat.
+(* the nodes on which bvisit(x) calls apply (including the Pow nodes that bvisit(Mul) creates, the
+   coefficient of a Mul and the parts of a complex number) *)
+Definition vchildren (x : expr) : list expr :=
+  match x with
+  | EAdd _ d => map fst d
+  | EMul c d => map mul_factor_old d ++ [ENum c]
+  | EPow b e => [b; e]
+  | ENum n => match complex_parts n with Some (re, im) => [ENum re; ENum im] | None => [] end
+  | EFunSym _ l => l
+  | EFN c l => if (c =? TC_Intersection)%N then [] else l
+  | EF1 _ a => [a]
+  | EF2 _ a b => [a; b]
+  | ELex c a b => if (c =? TC_Contains)%N then [a; b] else []
+  | EPw l => flat_map (fun p => [fst p; snd p]) l
+  | _ => []
+  end.
+
+(* a measure that decreases from x to every node of vchildren x: the call depth of apply *)
+Fixpoint wsize (e : expr) : nat :=
+  match e with
+  | ENum n => match complex_parts n with Some _ => 2 | None => 1 end
+  | EAdd _ d => S (fold_right (fun p acc => wsize (fst p) + acc) 0 d)%nat
+  | EMul _ d => S (S (S (fold_right (fun p acc => wsize (fst p) + wsize (snd p) + acc) 0 d)))%nat
+  | EPow b e => S (wsize b + wsize e)
+  | EF1 _ a => S (wsize a)
+  | EF2 _ a b | ELex _ a b => S (wsize a + wsize b)
+  | EFN _ l | EFunSym _ l => S (fold_right (fun x acc => wsize x + acc) 0 l)%nat
+  | EPw l => S (fold_right (fun p acc => wsize (fst p) + wsize (snd p) + acc) 0 l)%nat
+  | _ => 1
+  end.
+
+Definition subs_fuel (x : expr) : nat := S (wsize x).
 
 (* xreplace / subs / msubs / ssubs (x, subs_dict, cache): the constructor copies subs_dict into visited
    when cache is set *)
 Definition subs_gen (kind : skind) (cache : bool) (sd : mdict) (x : expr) : res expr :=
-  do '(r, _) <- apply (subs_fuel x) kind cache sd (if cache then sd else []) x; Ok r.
+  do '(r, _) <- apply (subs_fuel x) (subs_pow kind) cache sd (if cache then sd else []) x; Ok r.
 
 (* the map built by the driver: m[k] = v for the pairs in order *)
 Definition mk_dict (l : list (expr * expr)) : mdict :=
@@ -202,26 +241,3 @@ Definition mk_dict (l : list (expr * expr)) : mdict :=
                         | Some _ => mset (fst p) (snd p) d
                         | None => minsert (fst p) (snd p) d
                         end) l [].
-
-(* ---------- guards used by the theorems (evaluated by the checks on the explored inputs) ---------- *)
-
-(* the nodes on which apply is called while visiting x (including the Pow nodes that bvisit(Mul)
-   creates, the coefficient of a Mul and the parts of a complex number) *)
-Fixpoint visited_nodes (x : expr) : list expr :=
-  x ::
-  match x with
-  | EAdd _ d => flat_map (fun p => visited_nodes (fst p)) d
-  | EMul c d =>
-      flat_map (fun p => (if expr_eqb (snd p) e_one then [] else [EPow (fst p) (snd p)])
-                         ++ visited_nodes (fst p) ++ visited_nodes (snd p)) d ++ [ENum c]
-  | EPow b e => visited_nodes b ++ visited_nodes e
-  | ENum n => match complex_parts n with Some (re, im) => [ENum re; ENum im] | None => [] end
-  | EFunSym _ l | EFN _ l => flat_map visited_nodes l
-  | EF1 _ a => visited_nodes a
-  | EF2 _ a b | ELex _ a b => visited_nodes a ++ visited_nodes b
-  | EPw l => flat_map (fun p => visited_nodes (fst p) ++ visited_nodes (snd p)) l
-  | _ => []
-  end.
-
-(* std::map equivalence of two keys *)
-Definition key_equiv (a b : expr) : bool := negb (expr_keyless a b) && negb (expr_keyless b a).
